@@ -88,6 +88,8 @@ func c04(c *Check) {
 	c.Rule("C04/counters-survive-genesis", "send sequences and commitments are exported from and re-imported into their own families under the same (src,dst[,seq]) order, so numbering continues after an export/import and the chain-side counter keeps agreeing with the contract's (shared with C13)", 4)
 	packetGenesisBinding(c, "C04/counters-survive-genesis", "SendSequences", "Commitments")
 
+	c.Rule("C04/reset-wipes-both-counters", "whoever wipes the chain-side packet state (xibc.ResetStates, used by the upgrade handler) first deletes the packet contract's account, whose storage holds the contract-side send counters: resetting one side alone leaves the two counters apart", 1)
+	resetWipesBoth(c, "C04/reset-wipes-both-counters")
 	c.Rule("C04/once", "on every success path of SendPacket exactly one SetNextSequenceSend, one setSequence call and one SetPacketCommitment", 3)
 	sp := c.F(pkKeeper + "Keeper.SendPacket")
 	for _, callee := range []string{"keeper.(Keeper).SetNextSequenceSend", "keeper.(Keeper).CallPacket", "keeper.(Keeper).SetPacketCommitment"} {
@@ -259,4 +261,46 @@ func tssProofRule(c *Check, rule string) {
 			c.Req(ok && tssBranch && onlyTSS, rule, funcName(fn)+"/proof-argument", cs.Ins.Pos(), a[5].String(), "proof argument is "+a[5].String()+" (required "+want+", the signer being chosen exactly when the client type is TSS and by no other condition)")
 		}
 	}
+}
+
+// resetWipesBoth: every call of xibc.ResetStates is preceded, on every path, by EvmKeeper.DeleteAccount of the packet
+// contract address (the constant syscontracts.PacketContractAddress).
+func resetWipesBoth(c *Check, rule string) {
+	reset := c.F("x/xibc.ResetStates")
+	addr := ""
+	if k, ok := c.P.Const("syscontracts.PacketContractAddress"); ok {
+		addr = k
+	}
+	c.Req(addr != "", rule, "packet contract address constant", reset.Pos(), addr, "syscontracts.PacketContractAddress not found")
+	n := 0
+	for fn := range c.P.AllFuncs {
+		if !inTeleport(fn) || len(fn.Blocks) == 0 || isGeneratedFn(c.P, fn) {
+			continue
+		}
+		fa := c.P.FA(fn)
+		for _, cs := range c.P.CallsInOwn(fn) {
+			if c.P.resolveCallee(cs.Ins.Common()) != reset {
+				continue
+			}
+			n++
+			ok := false
+			for _, d := range c.P.CallsIn(fn) {
+				if !strings.HasSuffix(d.Name, "Keeper).DeleteAccount") {
+					continue
+				}
+				args := c.P.ArgExprs(d)
+				if len(args) < 3 || !strings.Contains(args[2].String(), addr) {
+					continue
+				}
+				db, rb := d.Ins.Block(), cs.Ins.Block()
+				if (db == rb && instrIndex(d.Ins) < instrIndex(cs.Ins)) || (db != rb && c.P.Dominates(db, rb)) {
+					ok = true
+				}
+			}
+			_ = fa
+			c.Req(ok, rule, funcName(fn)+"/ResetStates after DeleteAccount(packet contract)", cs.Ins.Pos(), "the packet contract account is deleted first",
+				"xibc.ResetStates wipes the chain-side sequence counters without a preceding DeleteAccount of the packet contract ("+addr+"): the contract keeps its old counters and the next send fails the sequence comparison")
+		}
+	}
+	c.Req(n > 0, rule, "callers of ResetStates", reset.Pos(), sprint(n), "no caller of xibc.ResetStates found (anchor drifted)")
 }
